@@ -19,6 +19,7 @@ EXTENDS LOOperators
 
 \* 1-based indices of the floating tensors among t.ts
 GR_FloatTs(t) == CASE t.cls = "Interp" -> {2, 4}
+                   [] t.cls = "InterpLeft" -> {2}
                    [] t.cls \in {"Masked", "Perm", "TransPerm", "Identity", "Zero"} -> {}
                    [] OTHER -> 1..Len(t.ts)
 \* leaves as [path |-> child indices (0-based, for the binding), ti |-> index into ts (0-based), numel]
